@@ -235,6 +235,76 @@ def check_variants(case, ctx):
         ctx.nontrivial([spec, behaviours, case['token_cb']], sample={'tree': spec, 'behaviours': behaviours, 'result': str(base_res)[:200]})
 
 
+# ------------------------------------------------------------------ (c) plain trees without ID tokens, against a reference transformer
+def build_plain(t):
+    if t[0] == 'T': return Token(t[1], t[2])
+    return Tree(t[1], [build_plain(c) for c in t[2]])
+
+
+def ref_transform(t, behaviours, tok_behaviours):
+    """the documented semantics written out: children first, left to right; a callback's result replaces the node; Discard removes it
+    from its parent; nodes and tokens without a callback stay as they are (with their transformed children)"""
+    if t[0] == 'T':
+        b = tok_behaviours.get(t[1])
+        if b == 'discard': return Discard
+        if b == 'wrap': return ('tok' + t[1], t[2])
+        return ('Tok', t[1], t[2])
+    kids = [ref_transform(c, behaviours, tok_behaviours) for c in t[2]]
+    kids = tuple(k for k in kids if k is not Discard)
+    b = behaviours.get(t[1])
+    if b == 'discard': return Discard
+    if b == 'count': return len(kids)
+    if b == 'wrap': return (t[1], kids)
+    return ('Tree', t[1], kids)
+
+
+@blame_lark
+def check_plain(case, ctx):
+    spec = case['tree']; behaviours = case['behaviours']; tokb = case['tok_behaviours']
+    if behaviours.get(spec[1]) == 'discard':
+        ctx.discard('root node discarded (result of discarding the root is not specified)'); return
+    want = ref_transform(spec, behaviours, tokb)
+    for bname, base in BASES.items():
+        ns = {}
+        for nm in NODE_NAMES:
+            b = behaviours.get(nm)
+            if b is None: continue
+            def make(nm, b):
+                def cb(self, children):
+                    if b == 'discard': return Discard
+                    if b == 'count': return len(children)
+                    return (nm, freeze(children))
+                return cb
+            ns[nm] = make(nm, b)
+        for ty in ('X', 'Y'):
+            b = tokb.get(ty)
+            if b == 'discard': ns[ty] = lambda self, tok: Discard
+            elif b == 'wrap': ns[ty] = (lambda ty: lambda self, tok: ('tok' + ty, str(tok)))(ty)
+        cls = type('V', (base,), ns)
+        try:
+            got = freeze(cls().transform(build_plain(spec)))
+        except Exception as e:
+            raise Violation('%s.transform raised %s on a plain tree' % (bname, type(e).__name__), tree=spec, behaviours=behaviours, token_behaviours=tokb, error=str(e)[:200])
+        if got != want:
+            raise Violation('%s: result differs from the documented bottom-up semantics' % bname, tree=spec, behaviours=behaviours, token_behaviours=tokb,
+                            got=str(got)[:400], want=str(want)[:400])
+    ctx.label('plain:agree')
+    def emptied(t):
+        """some node with children loses all of them to Discard"""
+        if t[0] == 'T': return False
+        gone = lambda c: (tokb.get(c[1]) == 'discard') if c[0] == 'T' else (behaviours.get(c[1]) == 'discard')
+        return (bool(t[2]) and all(gone(c) for c in t[2])) or any(emptied(c) for c in t[2])
+    if emptied(spec): ctx.label('plain:node-emptied-by-discard')
+    if depth_of(spec) >= 2 and ('discard' in behaviours.values() or 'discard' in tokb.values()):
+        ctx.nontrivial(['plain', spec, behaviours, tokb], sample={'tree': spec, 'behaviours': behaviours, 'token_behaviours': tokb, 'result': str(want)[:200]})
+
+
+@st.composite
+def plain_cases(draw):
+    return {'tree': draw(trees(3)), 'tok_behaviours': {ty: draw(st.sampled_from(['wrap', 'discard', 'discard', None])) for ty in ('X', 'Y')},
+            'behaviours': {nm: draw(st.sampled_from(['wrap', 'wrap', 'count', 'discard', None])) for nm in NODE_NAMES}}
+
+
 @st.composite
 def variant_cases(draw):
     return {'tree': draw(trees(3)), 'token_cb': draw(st.booleans()),
@@ -244,4 +314,5 @@ def variant_cases(draw):
 def phases(tier):
     k = 12 if tier == 'thorough' else 1
     return [Phase('embedded-vs-afterwards', 'hypothesis', strategy=embedded_cases(), max_examples=16000 * k),
-            Phase('four-classes-agree', 'hypothesis', strategy=variant_cases(), max_examples=16000 * k, check=check_variants)]
+            Phase('four-classes-agree', 'hypothesis', strategy=variant_cases(), max_examples=16000 * k, check=check_variants),
+            Phase('four-classes-vs-reference', 'hypothesis', strategy=plain_cases(), max_examples=16000 * k, check=check_plain)]
